@@ -687,3 +687,181 @@ func mustMakeInterfaceOf(v, file ssa.Value) ssa.Value {
 	}
 	return nil
 }
+
+// loneElisionRejected (C08-R16, after F17): the pattern parser turns a "..."
+// into a pgo.Dots node that stands for a run of list elements. In a slot that
+// is not a list element — the init of an `if`, the statement after a label, an
+// operand — such a node can never match on the '-' side, and on the '+' side it
+// is copied into the rewritten file, where go/printer panics on it
+// ("unreachable"). So in augmenter.Apply every arm that puts the Dots node
+// into a statement or expression slot does so only behind cursor.Index() >= 0
+// (the slot is an element of a list) — or, for an expression, for the
+// condition of a `for` header, which ForDots handles.
+func loneElisionRejected(r *an.Run, rule string) {
+	r.Rule(rule)
+	anchor := fn(r, "internal/pgo", "augmenter.Apply")
+	if anchor == nil {
+		return
+	}
+	gt := goastTypes(r)
+	n := 0
+	for _, f := range helperGroup(anchor, 2) {
+		n += loneElisionRejectedIn(r, f, gt)
+	}
+	r.Count("places where a \"...\" is put into the pattern tree", n)
+	r.Min("places where a \"...\" is put into the pattern tree", 3)
+}
+
+func loneElisionRejectedIn(r *an.Run, f *ssa.Function, gt map[string]string) int {
+	isDotsAlloc := func(v ssa.Value) bool {
+		al, ok := v.(*ssa.Alloc)
+		if !ok {
+			return false
+		}
+		return an.IsNamed(al.Type().Underlying().(*types.Pointer).Elem(), an.Module+"/internal/pgo", "Dots")
+	}
+	// edges on which the slot is known to be a list element, and on which the parent is a for statement
+	var listEdges, forEdges []an.CtrlEdge
+	for _, b := range f.Blocks {
+		iff, ok := b.Instrs[len(b.Instrs)-1].(*ssa.If)
+		if !ok {
+			continue
+		}
+		cond, pos := an.StripNot(iff.Cond)
+		if cmp, ok := cond.(*ssa.BinOp); ok {
+			c, isCall := cmp.X.(*ssa.Call)
+			k, isc := an.ConstInt(cmp.Y)
+			if isCall && an.IsCallTo(c, cursorIndex) && isc {
+				succ := -1
+				switch {
+				case cmp.Op == token.LSS && k == 0, cmp.Op == token.LEQ && k == -1, cmp.Op == token.EQL && k == -1:
+					succ = 1
+				case cmp.Op == token.GEQ && k == 0, cmp.Op == token.GTR && k == -1, cmp.Op == token.NEQ && k == -1:
+					succ = 0
+				}
+				if succ >= 0 {
+					if !pos {
+						succ = 1 - succ
+					}
+					listEdges = append(listEdges, an.CtrlEdge{Block: b, Succ: succ})
+				}
+			}
+		}
+		if ex, ok := cond.(*ssa.Extract); ok && ex.Index == 1 {
+			if ta, ok := ex.Tuple.(*ssa.TypeAssert); ok && an.ShortType(ta.AssertedType) == "*ast.ForStmt" {
+				if pc, ok := ta.X.(*ssa.Call); ok && an.IsCallTo(pc, cursorParent) {
+					succ := 0
+					if !pos {
+						succ = 1
+					}
+					forEdges = append(forEdges, an.CtrlEdge{Block: b, Succ: succ})
+				}
+			}
+		}
+	}
+	n := 0
+	for _, c := range an.CallsTo(f, "(*golang.org/x/tools/go/ast/astutil.Cursor).Replace") {
+		arg := c.Common().Args[1]
+		holdsDots := false
+		for v := range an.BackSlice(arg, an.SliceOpts{ThroughMemory: true}) {
+			if isDotsAlloc(v) {
+				holdsDots = true
+			}
+		}
+		if !holdsDots {
+			continue
+		}
+		// which slot type? the arm of `switch fieldType` this replacement sits in
+		slot := ""
+		for _, cs := range an.EqCases(f, func(v ssa.Value) bool { return an.ShortType(v.Type()) == "reflect.Type" }) {
+			g := an.GlobalLoaded(cs.Key)
+			if g == nil {
+				continue
+			}
+			if unreachableWithout(c.Block(), []an.CtrlEdge{edgeTo(cs.If.Block(), cs.Target)}) {
+				slot = gt[g.Name()]
+			}
+		}
+		n++
+		key := short(f) + "|lone-elision|" + slot
+		switch slot {
+		case "go/ast.Stmt":
+			r.Check(len(listEdges) > 0 && unreachableWithout(c.Block(), listEdges), key, c.Pos(), "a \"...\" becomes a statement only where the slot is an element of a statement list (cursor.Index() >= 0): as the lone statement of a slot it would reach go/printer, which panics on it")
+		case "go/ast.Expr":
+			r.Check(len(listEdges) > 0 && unreachableWithout(c.Block(), append(append([]an.CtrlEdge{}, listEdges...), forEdges...)), key, c.Pos(), "a \"...\" becomes an expression only as an element of a list or as the condition of a for header")
+		case "*go/ast.Field":
+			r.Pass(key, c.Pos(), "a field is always an element of a field list")
+		default:
+			r.Undecided(key, c.Pos(), "cannot tell for which kind of slot this replacement of a \"...\" is made")
+		}
+	}
+	return n
+}
+
+// metavariableBindsCode (C02-R10, after F18): a metavariable stands for code.
+// An optional identifier that is absent — the label of a bare `break` — is a
+// nil *ast.Ident of the right type: MetavarMatcher.Match must reject it before
+// it captures or compares. Decided under the hypothesis "the candidate is a nil
+// pointer" (got.Kind() == reflect.Ptr and got.IsNil() both true): the capture
+// is unreachable, a captured matcher is not consulted, and every return that is
+// reachable answers false.
+func metavariableBindsCode(r *an.Run, rule string) {
+	r.Rule(rule)
+	f := fn(r, engine, "MetavarMatcher.Match")
+	if f == nil {
+		return
+	}
+	got := paramAt(f, 0)
+	var isNil *ssa.Call
+	for _, c := range an.CallsTo(f, rvIsNil) {
+		if call, ok := c.(*ssa.Call); ok && isParam(call.Call.Args[0], an.ParamName(got)) {
+			isNil = call
+		}
+	}
+	if !r.Check(isNil != nil, short(f)+"|tests-for-absence", f.Pos(), "MetavarMatcher.Match asks whether the candidate is a nil pointer (an optional identifier that is absent)") {
+		return
+	}
+	ptrKind := reflectKind(r, "Ptr")
+	assume := func(v ssa.Value) (bool, bool) {
+		if v == ssa.Value(isNil) {
+			return true, true
+		}
+		if cmp, ok := v.(*ssa.BinOp); ok && (cmp.Op == token.EQL || cmp.Op == token.NEQ) {
+			if c, ok := cmp.X.(*ssa.Call); ok && an.IsCallTo(c, rvKind) && isParam(c.Call.Args[0], an.ParamName(got)) {
+				if k, isc := an.ConstInt(cmp.Y); isc {
+					return (k == ptrKind) == (cmp.Op == token.EQL), true
+				}
+			}
+		}
+		return false, false
+	}
+	reach := an.ReachUnder(f.Blocks[0], assume, nil)
+	captures, consults := false, false
+	for b := range reach {
+		for _, in := range b.Instrs {
+			c, ok := in.(*ssa.Call)
+			if !ok {
+				continue
+			}
+			if an.IsCallTo(c, dataPath+".WithValue") {
+				captures = true
+			}
+			if an.IsCallTo(c, matcherMatch) {
+				consults = true
+			}
+		}
+	}
+	r.Check(!captures, short(f)+"|absent-identifier-not-captured", isNil.Pos(), "a nil candidate is never captured as the value of a metavariable")
+	r.Check(!consults, short(f)+"|absent-identifier-not-compared", isNil.Pos(), "a nil candidate is never accepted as a repetition of a captured value")
+	idx, _ := an.VerdictIndex(f.Signature)
+	good := true
+	for _, ret := range an.Returns(f) {
+		if !reach[ret.Block()] {
+			continue
+		}
+		if k, isc := an.ConstBool(ret.Results[idx]); !isc || k {
+			good = false
+		}
+	}
+	r.Check(good, short(f)+"|absent-identifier-rejected", isNil.Pos(), "for a nil candidate every reachable return answers false")
+}
